@@ -89,7 +89,7 @@ def run_input(text: str, projector, tag: str = '', keep_report: bool = True, wor
         sys.argv = argv0
         os.chdir(cwd0)
         logging.disable(logging.NOTSET)
-        ctx['stdout_tail'] = sink.getvalue()[-800:]
+        ctx['stdout_tail'] = sink.getvalue()[-300:]
         ctx['report_exists'] = out.exists() and out.stat().st_size > 0
         ctx['json_exists'] = (tmp / 'out.json').exists()
         if workdir is None:
